@@ -362,9 +362,19 @@ class Fn:
                 inner = self.pattern()
                 self.eat(")")
                 return f"{self.paths[key]} {inner[0]}", inner[1]
+            if self.peek() == "{":
+                self.eat("{")
+                names = []
+                while self.peek() != "}":
+                    names.append(self.idents.get(self.peek(), self.peek())); self.eat()
+                    if self.peek() == ",":
+                        self.eat()
+                self.eat("}")
+                return f"{self.paths[key]} {' '.join(names)}", [(n_, False) for n_ in names]
             return self.paths[key], []
         if not IDENT.match(name):
             raise TranslateError(f"pattern {name}")
+        name = self.idents.get(name, name)
         return name, [(name, mut)]
 
     def skip_type(self):
@@ -420,7 +430,7 @@ class Fn:
             if hit:
                 self.i += hit[0]
                 if hit[1]:
-                    out.append(pad + hit[1])
+                    out += [pad + ln_ for ln_ in hit[1].split("\n")]
                 continue
             if tok == "let":
                 self.eat()
@@ -673,7 +683,47 @@ def _scan_cfg(file, fn, lean_name):
                   ("delta", "push_literal"): lambda a: f"rops := pushLiteral rops {a[0]}"},
         calls={})
 
+
+_PATCH_PATHS = {"DeltaOp::Copy": "Op.copy", "DeltaOp::Literal": "Op.literal", "u64::from": "id"}
+
+
+def _patch_cfg(file, lean_name, is_async):
+    vb = [("delta.validate()?;", "if !(validate delta) then\n  return (PatchResult.invalidCopyBounds, output)"),
+          ("let mut hasher = blake3::Hasher::new();", "let mut hasher : List Nat := []"),
+          ("basis.seek(SeekFrom::Start(*offset))?;", "let pos := offset"),
+          ("basis.seek(std::io::SeekFrom::Start(*offset))?;", "let pos := offset"),
+          ("let mut buffer = vec![0u8; *len as usize];", ""),
+          ("basis.read_exact(&mut buffer)?;", "if !(decide (pos + len ≤ basis.length)) then\n  return (PatchResult.io, output)\nlet buffer := (basis.drop pos).take len"),
+          ("output.write_all(&buffer)?;", "output := output ++ buffer"),
+          ("hasher.update(&buffer);", "hasher := hasher ++ buffer"),
+          ("output.write_all(data)?;", "output := output ++ data"),
+          ("hasher.update(data);", "hasher := hasher ++ data"),
+          ("output.flush()?;", ""),
+          ("let computed = StrongHash::from_bytes(*hasher.finalize().as_bytes());", "let computed := H hasher"),
+          ("return Err(CopiaError::ChecksumMismatch { expected: *delta.checksum.as_bytes(), actual: *computed.as_bytes(), });",
+           "return (PatchResult.checksumMismatch, output)"),
+          ('debug_assert_eq!( delta.expected_output_size(), delta.source_size, "expected output size must equal source size" );', ""),
+          ('debug_assert_eq!( bytes_written, delta.source_size, "bytes written must equal source size" );', "")]
+    return dict(group="delta", file=file, fn="patch", sig=None, name="patch",
+        subst=[("self.config.verify_checksum", "verify_checksum")] + ([(".await", "")] if is_async else []),
+        lean=f"def {lean_name} {{D : Type}} [DecidableEq D] (H : List Nat → D) (verify_checksum : Bool) (basis : List Nat) (delta : Delta D) :\n"
+             "    PatchResult × List Nat := Id.run do\n"
+             "  -- world: the bytes written to `output` so far (returned with the verdict), the bytes fed to the hasher\n"
+             "  let mut output : List Nat := []",
+        retval="(PatchResult.ok, output)",
+        calls={"Ok": lambda a: "OK" if a == ["()"] else (_ for _ in ()).throw(TranslateError("Ok(..) with a value"))},
+        verbatim=vb, paths=_PATCH_PATHS, methods={"len": lambda r, a: f"{r}.length"})
+
 FUNCS = [
+    _patch_cfg("src/sync.rs", "patchSync", False),
+    _patch_cfg("src/async_sync.rs", "patchAsync", True),
+    dict(group="delta", file="src/delta.rs", name="validate", sig="fn validate(&self) -> Result<()>",
+         lean="def validateGen {D : Type} (delta : Delta D) : Bool := Id.run do",
+         retval="true", idents={"self": "delta", "end": "end_"}, fields={"basis_size": "basisSize"},
+         calls={"Ok": lambda a: "OK" if a == ["()"] else (_ for _ in ()).throw(TranslateError("Ok(..) with a value"))},
+         verbatim=[("return Err(CopiaError::InvalidCopyBounds { offset: *offset, len: *len, basis_size: self.basis_size, });", "return false")],
+         paths=_PATCH_PATHS,
+         methods={"saturating_add": lambda r, a: f"(min ({r} + {a[0]}) 18446744073709551615)"}),
     _scan_cfg("src/sync.rs", "delta", "scanSync"),
     _scan_cfg("src/async_sync.rs", "delta", "scanAsync"),
     dict(group="reconcile", file="src/bin/copia/reconcile.rs", name="reconcile",
@@ -717,10 +767,10 @@ FUNCS = [
          verbatim=[("let mut conflict_paths: Vec<PathBuf> = Vec::new();", "let mut conflict_paths := (0 : Nat)"),
                    ("apply( root_a, root_b, path, *act, &a, &b, &host, &mut common, &mut conflict_paths, )?;",
                     "let r ← apply ge cname a b { A := fs.1, B := fs.2, common := common } path act\n"
-                    "    fs := (r.1.A, r.1.B)\n"
-                    "    common := r.1.common\n"
-                    "    if r.2 then\n"
-                    "      conflict_paths := conflict_paths + 1"),
+                    "fs := (r.1.A, r.1.B)\n"
+                    "common := r.1.common\n"
+                    "if r.2 then\n"
+                    "  conflict_paths := conflict_paths + 1"),
                    ("let mut arc = loaded.unwrap_or_else(|| Archive::fresh(pair.clone(), host.clone()));", ""),
                    ("arc.entries = common;", ""),
                    ("arc.epoch += 1;", ""),
@@ -788,6 +838,10 @@ def translate(group):
             for _ in range(f.get("slice_close", 0)):
                 end_ = body.index("}", end_) + 1      # … and the closing brace(s) of the block the last statement sits in
             body = "{" + body[body.index(a0):end_] + "}"
+        for a_, b_ in f.get("subst", []):
+            if a_ not in body:
+                raise TranslateError(f"{f['name']}: `{a_}` is no longer there")
+            body = body.replace(a_, b_)
         t = Fn(tokenize(body), f)
         lines = t.block(2)
         if f.get("epilogue"):
